@@ -31,7 +31,7 @@ made_wt = False
 if not os.path.isdir(WT):
     rc, out = sh('git -C /repo worktree add -q --detach %s HEAD' % WT)
     made_wt = True
-sh('git checkout -q -- . && git clean -fdq -e target', cwd=WT)
+sh('git reset -q --hard && git clean -fdq -e target', cwd=WT)
 rc, out = sh('git apply --whitespace=nowarn %s' % patch, cwd=WT)
 if rc != 0:
     print('patch does not apply:', out[-400:])
@@ -53,7 +53,8 @@ else:
     except Exception:
         pass
     res['existing_tests'], res['tests_pass'] = prev.get('existing_tests'), prev.get('tests_pass')
-rc, out = sh('./nv all', cwd='/verif', env={'NV_REPO': WT})
+NVOUT = '/tmp/seed/nvout-%s' % tag
+rc, out = sh('./nv all', cwd='/verif', env={'NV_REPO': WT, 'NV_OUT': NVOUT})
 alarms = {}
 cur = None
 for l in out.splitlines():
@@ -64,17 +65,21 @@ for l in out.splitlines():
     if m2:
         alarms.setdefault(m2.group(1), [])
 for pid in alarms:
-    for l in open('/verif/reports/%s.txt' % pid):
+    for l in open(NVOUT + '/reports/%s.txt' % pid):
         if l.startswith('VIOLATION key='):
             alarms[pid].append(l.strip().split('key=', 1)[1])
 res['false_alarms'] = alarms
-res['silent'] = not alarms
+crashed = rc not in (0, 1) or 'Traceback' in out or 'ERROR property=' in out
+if crashed:
+    res['crashed'] = [l for l in out.splitlines() if l.startswith('ERROR property=') or 'Error' in l][:5] or ['rc=%d' % rc]
+res['silent'] = not alarms and not crashed
 os.makedirs(DEST, exist_ok=True)
 if src != DEST:
     shutil.copy(patch, os.path.join(DEST, 'patch.diff'))
 meta['evaluation'] = res
 json.dump(meta, open(os.path.join(DEST, 'meta.json'), 'w'), indent=1)
 print(json.dumps(res, indent=1))
+shutil.rmtree(NVOUT, ignore_errors=True)
 if made_wt:
     sh('git -C /repo worktree remove --force %s' % WT)
     sh('git -C /repo worktree prune')
